@@ -19,6 +19,9 @@ def main():
     with open(unitfile) as fh:
         job = json.load(fh)
     acc = Acc()
+    from . import reach
+
+    reach.start(getattr(mod, "ID", ""))
     for unit in job["units"]:
         try:
             mod.run_unit(unit, job["tier"], job["seed"], acc)
@@ -27,6 +30,7 @@ def main():
             acc.inconclusive.append(
                 "harness error in unit %r: %s" % (unit, traceback.format_exc()[-1200:])
             )
+    reach.stop(acc)
     with open(outfile, "w") as fh:
         json.dump(acc.to_json(), fh, default=str)
 
